@@ -110,3 +110,198 @@ Proof.
         apply (Hstep o t1 H2 (f_equal fst Ei) is0 E).
 Qed.
 End Res.
+
+(* ====================================================================== the vars block *)
+Fixpoint rnames (r : rdesc) : list string :=
+  match r with
+  | RConst _ => []
+  | RVar _ x => [x]
+  | RVarMeta _ x acc _ => x :: rnames acc
+  | RVarBal x acc asset => x :: rnames acc ++ rnames asset
+  | RMon ra _ => rnames ra
+  end.
+Definition closed (te : tenv) (r : rdesc) : Prop := forall y, In y (rnames r) -> declared te y = true.
+
+Lemma closed_ext te x t r : closed te r -> closed (te ++ [(x, t)]) r.
+Proof. intros H y Hy. rewrite declared_app, (H y Hy). reflexivity. Qed.
+
+Lemma lookup_snoc_other {V} (e : list (string * V)) x v y : lookup e y <> None -> lookup (e ++ [(x, v)]) y = lookup e y.
+Proof. intros H. rewrite lookup_app. destruct (lookup e y); [reflexivity|contradiction]. Qed.
+
+Lemma denote_ext te e x v r : cons_env te e -> closed te r -> denote (e ++ [(x, v)]) r = denote e r.
+Proof.
+  intros [C1 C2] Hc. assert (Hy : forall y, In y (rnames r) -> lookup (e ++ [(x, v)]) y = lookup e y).
+  { intros y Hy. apply lookup_snoc_other. specialize (Hc y Hy). unfold declared in Hc. destruct (lookup te y) as [t|] eqn:E; [|discriminate].
+    destruct (C1 _ _ E) as [v0 [H0 _]]. rewrite H0. discriminate. }
+  clear Hc. induction r as [c|t y|t y acc IHa k|y acc IHa asset IHs|ra IH n]; simpl in *; try reflexivity;
+    try (rewrite (Hy y (or_introl eq_refl)); reflexivity).
+  rewrite IH; [reflexivity|assumption].
+Qed.
+
+Lemma rok_ext te e x v r : cons_env te e -> closed te r -> rok e r -> rok (e ++ [(x, v)]) r.
+Proof.
+  intros Hc. induction r as [c|t y|t y acc IHa k|y acc IHa asset IHs|ra IH n]; simpl; intros Hcl Hr; auto.
+  - destruct Hr as [R1 R2]. assert (closed te acc) as Ha by (intros z Hz; apply Hcl; right; assumption).
+    split; [apply IHa; assumption|]. rewrite (denote_ext te e x v acc Hc Ha). assumption.
+  - destruct Hr as [R1 [R2 [R3 R4]]].
+    assert (closed te acc) as Ha by (intros z Hz; apply Hcl; right; apply in_or_app; left; assumption).
+    assert (closed te asset) as Hs by (intros z Hz; apply Hcl; right; apply in_or_app; right; assumption).
+    repeat split; [apply IHa; assumption|rewrite (denote_ext te e x v acc Hc Ha); assumption|apply IHs; assumption|rewrite (denote_ext te e x v asset Hc Hs); assumption].
+  - destruct Hr as [R1 R2]. split; [apply IH; assumption|]. rewrite (denote_ext te e x v ra Hc Hcl). assumption.
+Qed.
+
+Lemma find_res_var_none t r x : var_name r = Some x -> (forall r', In r' t -> var_name r' <> Some x) -> forall n, find_res t r n = None.
+Proof.
+  intros Hr. induction t as [|r0 tl IH]; intros Hn n; [reflexivity|]. simpl.
+  assert (rdesc_eqb r0 r = false) as E.
+  { pose proof (Hn r0 (or_introl eq_refl)) as H0. destruct r0, r; simpl in *; try reflexivity; try discriminate;
+      inv Hr; destruct (String.eqb _ _) eqn:Eq; try reflexivity; apply String.eqb_eq in Eq; subst; exfalso; apply H0; reflexivity. }
+  rewrite E. apply IH. intros r' Hin. apply Hn. right. assumption.
+Qed.
+
+(* the variable entries of a table *)
+Definition tvars (t : list rdesc) : list (string * ty) := flat_map (fun r => match r with RVar ty x => [(x, ty)] | _ => [] end) t.
+Definition plain_of (ds : list vardecl) : list (string * ty) :=
+  flat_map (fun d => match vorigin d with ONone => [(vname d, vty d)] | _ => [] end) ds.
+Lemma tvars_app a b : tvars (a ++ b) = tvars a ++ tvars b.
+Proof. unfold tvars. apply flat_map_app. Qed.
+
+Record vinv (te : tenv) (ve : venv) (e : env) (bv : list (string * key)) (t : list rdesc) (vals : list vval) (bvs : list (nat * key)) : Prop := {
+  vi_cons : cons_env te e;
+  vi_ve : venv_ok te ve;
+  vi_dom : forall x r, lookup ve x = Some r -> declared te x = true;
+  vi_rok : forall x r, lookup ve x = Some r -> rok e r /\ find_res t r O <> None /\ closed te r;
+  vi_tab : tinv e t vals;
+  vi_closed : forall r, In r t -> closed te r;
+  vi_names : forall r x, In r t -> var_name r = Some x -> declared te x = true;
+  vi_bv : map snd bvs = map snd bv /\
+          forall j x k, nth_error bv j = Some (x, k) -> exists i r, nth_error bvs j = Some (i, k) /\ nth_error t i = Some r /\ var_name r = Some x
+}.
+
+Definition is_const (r : rdesc) : Prop := match r with RConst _ => True | _ => False end.
+Definition simple_alloc (t : list rdesc) (v : event) : Prop :=
+  match v with
+  | EAlloc (RConst _) => True
+  | EAlloc (RMon _ _) => False
+  | EAlloc r => find_res t r O <> None
+  | _ => False
+  end.
+
+Lemma assign_simple evs : forall t is t', Forall (simple_alloc t) evs -> assign evs t = (is, t') ->
+  is = [] /\ exists ext, t' = t ++ ext /\ Forall is_const ext.
+Proof.
+  induction evs as [|v tl IH]; intros t is t' Hf H; simpl in H.
+  - inv H. split; [reflexivity|]. exists []. rewrite app_nil_r. split; [reflexivity|constructor].
+  - pose proof (Forall_inv Hf) as Hh. pose proof (Forall_inv_tail Hf) as H2. clear Hf. destruct v as [r|i]; [|contradiction].
+    assert (exists ext1, fst (intern t r) = t ++ ext1 /\ Forall is_const ext1) as [e1 [H1 Hc1]].
+    { destruct r as [c|ty x|ty x acc k|x acc asset|ra n]; simpl in Hh |- *; try contradiction;
+        unfold intern1; try (destruct (find_res t _ O) as [i|]; [exists []; rewrite app_nil_r; split; [reflexivity|constructor]|contradiction]).
+      destruct (find_res t (RConst c) O); simpl; [exists []; rewrite app_nil_r; split; [reflexivity|constructor]|].
+      exists [RConst c]. split; [reflexivity|constructor; [exact I|constructor]]. }
+    rewrite H1 in H.
+    assert (Forall (simple_alloc (t ++ e1)) tl) as Hf'.
+    { eapply Forall_impl; [|exact H2]. intros [[c|ty x|ty x acc k|x acc asset|ra n]|i]; simpl; auto;
+        intros Hq; (destruct (find_res t _ O) as [j|] eqn:E; [rewrite (find_res_app _ e1 _ _ _ E); discriminate|contradiction]). }
+    destruct (IH _ _ _ Hf' H) as [Hi [e2 [He2 Hc2]]]. split; [assumption|]. exists (e1 ++ e2). rewrite He2, app_assoc. split; [reflexivity|].
+    apply Forall_app. split; assumption.
+Qed.
+
+Lemma assign_app a : forall b t, assign (a ++ b) t =
+  (let (ia, ta) := assign a t in let (ib, tb) := assign b ta in (ia ++ ib, tb)).
+Proof.
+  induction a as [|v tl IH]; intros b t; simpl.
+  - destruct (assign b t); reflexivity.
+  - destruct v as [r|i].
+    + apply IH.
+    + destruct i; try (rewrite IH; destruct (assign tl t) as [ia ta]; destruct (assign b ta); reflexivity).
+      destruct (intern t o) as [t1 a0]. rewrite IH. destruct (assign tl t1) as [ia ta]. destruct (assign b ta); reflexivity.
+Qed.
+
+Lemma const_facts ext : Forall is_const ext ->
+  tvars ext = [] /\ (forall te r, In r ext -> closed te r) /\ (forall r x, In r ext -> var_name r <> Some x).
+Proof.
+  induction 1 as [|r ext Hr _ [I1 [I2 I3]]]; [repeat split; intros; try contradiction; reflexivity|].
+  destruct r; try contradiction. repeat split.
+  - simpl. assumption.
+  - intros te r [<-|Hin]; [intros y []|apply I2; assumption].
+  - intros r x [<-|Hin]; [discriminate|apply I3; assumption].
+Qed.
+
+(* reading the table at the address of a resource that is in it *)
+Lemma lookup_tab e t vals tF post r : tinv e t vals -> find_res t r O <> None -> tF = t ++ post ->
+  nth_error vals (addr_of tF r) = Some (denote e r).
+Proof.
+  intros [Hl Ht] Hf ->. destruct (find_res t r O) as [i|] eqn:E; [|contradiction]. unfold addr_of.
+  rewrite (find_res_app _ post _ _ _ E). destruct (find_res_spec _ _ _ _ E) as [_ [r' [Hn Hq]]]. rewrite Nat.sub_0_r in Hn.
+  rewrite (Ht _ _ Hn). rewrite (rdesc_eqb_denote e _ _ Hq). reflexivity.
+Qed.
+
+Section Vars.
+Variable given : list (string * value).
+Variable s : store.
+Variable tF : list rdesc.
+
+Lemma lookup_fresh te e x : cons_env te e -> declared te x = false -> lookup e x = None.
+Proof.
+  intros [_ C2] Hd. destruct (lookup e x) as [v|] eqn:E; [|reflexivity]. rewrite (C2 _ _ E) in Hd. discriminate.
+Qed.
+
+(* invariant after adding the variable x with resource r and value v, the table having grown by constants then r *)
+Lemma vinv_step te ve e bv t vals bvs x ty r v ext bv1 bvs1 :
+  vinv te ve e bv t vals bvs -> declared te x = false -> var_name r = Some x -> ty_of v = ty ->
+  Forall is_const ext -> tinv e (t ++ ext) (vals ++ map (denote e) ext) ->
+  rok (e ++ [(x, v)]) r -> closed (te ++ [(x, ty)]) r ->
+  denote (e ++ [(x, v)]) r = XV v ->
+  (bv1 = bv /\ bvs1 = bvs \/ exists k, bv1 = bv ++ [(x, k)] /\ bvs1 = bvs ++ [(List.length (t ++ ext), k)]) ->
+  vinv (te ++ [(x, ty)]) (ve ++ [(x, r)]) (e ++ [(x, v)]) bv1 ((t ++ ext) ++ [r]) ((vals ++ map (denote e) ext) ++ [XV v]) bvs1.
+Proof.
+  intros [Ic Ive Idom Irok Itab Icl Inm Ibv] Hd Hr Hty Hext Hta Hrok Hclr Hden Hb.
+  destruct (const_facts ext Hext) as [_ [Cc Cn]].
+  assert (cons_env (te ++ [(x, ty)]) (e ++ [(x, v)])) as Ic' by (apply cons_env_snoc; assumption).
+  assert (forall r0, In r0 (t ++ ext) -> closed te r0) as Icl'.
+  { intros r0 Hin. apply in_app_or in Hin. destruct Hin; [apply Icl|apply Cc]; assumption. }
+  constructor.
+  - exact Ic'.
+  - intros y t0 Hl. rewrite lookup_app in Hl. rewrite lookup_app. destruct (lookup te y) as [t1|] eqn:E.
+    + inv Hl. destruct (Ive _ _ E) as [r0 [Hr0 Hn0]]. rewrite Hr0. exists r0. auto.
+    + simpl in Hl. destruct (String.eqb x y) eqn:Ex; [|discriminate]. apply String.eqb_eq in Ex. subst y.
+      destruct (lookup ve x) as [r0|] eqn:E0; [specialize (Idom _ _ E0); congruence|]. simpl. rewrite String.eqb_refl. exists r. auto.
+  - intros y r0 Hl. rewrite declared_app. rewrite lookup_app in Hl. destruct (lookup ve y) as [r1|] eqn:E0.
+    + rewrite (Idom _ _ E0). reflexivity.
+    + simpl in Hl. destruct (String.eqb x y); [apply orb_true_r|discriminate].
+  - intros y r0 Hl. rewrite lookup_app in Hl. destruct (lookup ve y) as [r1|] eqn:E0.
+    + inv Hl. destruct (Irok _ _ E0) as [R1 [R2 R3]]. repeat split.
+      * apply (rok_ext te); assumption.
+      * destruct (find_res t r0 O) as [i|] eqn:Ef; [|contradiction]. rewrite <- app_assoc. rewrite (find_res_app _ _ _ _ _ Ef). discriminate.
+      * apply closed_ext. assumption.
+    + simpl in Hl. destruct (String.eqb x y); [|discriminate]. inv Hl. repeat split.
+      * exact Hrok.
+      * destruct (find_res (t ++ ext) r0 O) as [i|] eqn:Ef; [rewrite (find_res_app _ _ _ _ _ Ef); discriminate|].
+        rewrite (find_res_new _ _ _ Ef). discriminate.
+      * exact Hclr.
+  - (* table *) assert (tinv (e ++ [(x, v)]) (t ++ ext) (vals ++ map (denote e) ext)) as Hta'.
+    { destruct Hta as [Hl Ht]. split; [assumption|]. intros i r0 Hn. rewrite (Ht _ _ Hn).
+      rewrite (denote_ext te e x v r0 Ic); [reflexivity|]. apply Icl'. apply (nth_error_In _ _ Hn). }
+    pose proof (tinv_snoc _ _ _ r Hta') as Hs. rewrite Hden in Hs. exact Hs.
+  - intros r0 Hin. apply in_app_or in Hin. destruct Hin as [Hin|[<-|[]]]; [apply closed_ext; apply Icl'; assumption|exact Hclr].
+  - intros r0 y Hin Hn. rewrite declared_app. apply in_app_or in Hin. destruct Hin as [Hin|[<-|[]]].
+    + apply in_app_or in Hin. destruct Hin as [Hin|Hin]; [rewrite (Inm _ _ Hin Hn); reflexivity|exfalso; apply (Cn _ _ Hin Hn)].
+    + rewrite Hr in Hn. inv Hn. rewrite String.eqb_refl. apply orb_true_r.
+  - destruct Ibv as [B1 B2].
+    assert (forall j y k, nth_error bv j = Some (y, k) -> exists i r0, nth_error bvs j = Some (i, k) /\ nth_error ((t ++ ext) ++ [r]) i = Some r0 /\ var_name r0 = Some y) as B2'.
+    { intros j y k Hj. destruct (B2 _ _ _ Hj) as [i [r0 [H1 [H2 H3]]]]. exists i, r0. repeat split; try assumption.
+      rewrite <- app_assoc. rewrite nth_error_app1; [assumption|]. apply nth_error_Some. congruence. }
+    destruct Hb as [[-> ->]|[k [-> ->]]].
+    + split; assumption.
+    + split; [rewrite !map_app, B1; reflexivity|]. intros j y k0 Hj.
+      assert (List.length bvs = List.length bv) as Hlen by (rewrite <- (map_length snd bvs), B1, map_length; reflexivity).
+      destruct (Nat.lt_ge_cases j (List.length bv)) as [Hlt|Hge].
+      * rewrite nth_error_app1 in Hj by assumption. destruct (B2' _ _ _ Hj) as [i [r0 [H1 H2]]]. exists i, r0.
+        split; [rewrite nth_error_app1 by lia; assumption|assumption].
+      * rewrite nth_error_app2 in Hj by assumption. destruct (j - List.length bv)%nat as [|j'] eqn:Ej; [|destruct j'; discriminate].
+        simpl in Hj. inv Hj. exists (List.length (t ++ ext)), r. repeat split.
+        -- rewrite nth_error_app2 by lia. replace (j - List.length bvs)%nat with O by lia. reflexivity.
+        -- rewrite nth_error_app2 by lia. rewrite Nat.sub_diag. reflexivity.
+        -- assumption.
+Qed.
+End Vars.
